@@ -345,28 +345,17 @@ class ResultTypesGenerator:
         return fields, fragments
 
     def _sort_base_fragments(self, fragments: Set[str]) -> List[str]:
-        """Sort by name, but keep a fragment before the fragments it spreads:
-        a class has to precede its own bases in the list of bases."""
-        remaining = sorted(fragments)
-        spread = {
-            name: self._get_spread_fragments(
-                self.fragments_definitions[name].selection_set
-            )
-            for name in remaining
-        }
-        result: List[str] = []
-        while remaining:
-            name = next(
-                (
-                    n
-                    for n in remaining
-                    if not any(n in spread[other] for other in remaining)
-                ),
-                remaining[0],
-            )
-            remaining.remove(name)
-            result.append(name)
-        return result
+        """Order base fragments the same way in every class: fragments spreading
+        more levels of other fragments first, then by name. A class then precedes
+        its own bases and shared bases keep their relative order in all classes,
+        which is what the method resolution order needs."""
+        return sorted(fragments, key=lambda name: (-self._get_spread_depth(name), name))
+
+    def _get_spread_depth(self, name: str) -> int:
+        spread = self._get_spread_fragments(
+            self.fragments_definitions[name].selection_set
+        )
+        return 1 + max(map(self._get_spread_depth, spread)) if spread else 0
 
     def _get_spread_fragments(self, selection_set: SelectionSetNode) -> Set[str]:
         names: Set[str] = set()
